@@ -146,7 +146,7 @@ class LRTDP(Plans):
 
     def lrtdp(self, mdp : MarkovDecisionProcess, heuristic=None, iterations=None):
         # Ghallab, Nau, Traverso: Algorithm 6.17
-        self.res.V = defaultdict2(heuristic)
+        self.res.V = defaultdict2(lambda s: 0 if mdp.is_absorbing(s) else heuristic(s))
         self.res.action_orders = dict()
 
         # Keeping track of "labels": which states have been solved
